@@ -860,7 +860,6 @@ def decisions(conn, cfgproj):
 
 def gen_history(r, n_ops):
     ops, nconn, live = [], 0, []
-    shared = {}
     for _ in range(n_ops):
         k = r.random()
         if k < 0.55 or nconn == 0:
@@ -886,7 +885,7 @@ def gen_history(r, n_ops):
 
 def run_history(ctx, ops, facts, model_cases):
     """returns after recording violations; appends the model case"""
-    conns, snaps, given, dicts_passed = [], [], [], []
+    conns, snaps = [], []
     shared_dicts = {}
     case = {"kind": "history", "ops": ops}
     steps = []
@@ -931,7 +930,7 @@ def run_history(ctx, ops, facts, model_cases):
                     run_impl(c, "get", "pub", make_obj(["pub"]))
             # after every step: nobody else's policy moved, the defaults did not move
             now = [project(c._config) for c in conns]
-            steps.append(now)
+            steps.append((now, project(P.DEFAULT_CONFIG)))
             for j, (a, b) in enumerate(zip(now, snaps)):
                 if a != b:
                     bad("isolation:config-changed-by-other-connection", "connection %d's policy changed at step %d (%s) although it was given at open" % (j, step, op[0]),
@@ -944,11 +943,10 @@ def run_history(ctx, ops, facts, model_cases):
             if step < len(ops) - 1 and len(alive) > 3:      # every live connection at the end, the newest + two others in between
                 alive = [alive[-1]] + pick.sample(alive[:-1], 2)
             for j in alive:
-                c = conns[j]
-                if True:
-                    w = decisions(c, snaps[j])
-                    if w:
-                        bad("isolation:decision-differs-from-own-policy", "connection %d decides differently from the policy it was given (step %d)" % (j, step), w, snaps[j])
+                w = decisions(conns[j], snaps[j])
+                if w:
+                    bad("isolation:decision-differs-from-own-policy", "connection %d decides differently from the policy it was given (step %d)" % (j, step), w, snaps[j])
+        case["closed_at_end"] = [int(bool(c.closed)) for c in conns]
     finally:
         for c in conns:
             try:
@@ -1000,19 +998,22 @@ def history_model(ctx, model, pending):
     if model is None or not pending:
         return
     outs = model.batch([p[-1] for p in pending])
-    dflt = proj_sx(project(DEFAULT_SNAPSHOT))
     for (case, steps, _), out in zip(pending, outs):
         ctx.model_traces += 1
         if not isinstance(out, list) or len(out) != len(steps):
             ctx.tie_broken("correspondence:history", "model answered %d snapshots for %d steps" % (len(out) if isinstance(out, list) else -1, len(steps)))
             continue
-        for k, (now, snap) in enumerate(zip(steps, out)):
+        for k, ((now, dnow), snap) in enumerate(zip(steps, out)):
             mdef, mconns = snap
             got = [proj_sx(p) for p in now]
             want = [c[1] for c in mconns]
-            if got != want:
-                ctx.tie_broken("correspondence:history", "step %d of %r: model %r, implementation %r" % (k, case["ops"], want, got))
+            closed_m = [1 - c[0] for c in mconns]
+            if got != want or mdef != proj_sx(dnow):
+                ctx.tie_broken("correspondence:history", "step %d of %r: model %r default %r, implementation %r default %r"
+                               % (k, case["ops"], want, mdef, got, proj_sx(dnow)))
                 break
+            if k == len(steps) - 1 and closed_m != case.get("closed_at_end"):
+                ctx.tie_broken("correspondence:history-liveness", "%r: model closed %r, implementation %r" % (case["ops"], closed_m, case.get("closed_at_end")))
 
 
 # ---------------------------------------------------------------- driver entry points
